@@ -16,6 +16,8 @@ use prost::Message;
 use verif_harness::*;
 
 struct C05 {
+    /// generator only (S10): rows with about one namespace per data share
+    many_ns: bool,
     w: usize,
     roots: Vec<NamespacedHash>,
     committed: BTreeMap<u16, Vec<Vec<u8>>>,
@@ -44,10 +46,12 @@ fn oracle(side: i32, half: &[Vec<u8>]) -> String {
 
 /// one honest row of an extended square of width `w`: `k` namespace-sorted data shares (top half) or `k`
 /// arbitrary parity shares (bottom half), extended by the real codec
-fn gen_row(rng: &mut Rng, w: usize, top: bool) -> Vec<Vec<u8>> {
+fn gen_row(rng: &mut Rng, w: usize, top: bool, many_ns: bool) -> Vec<Vec<u8>> {
     let k = w / 2;
     let mut left: Vec<Vec<u8>> = if top {
-        let mut nss: Vec<Namespace> = (0..rng.usize(1, k.min(5))).map(|_| user_ns(rng)).collect();
+        // S10: `many_ns` = about as many distinct namespaces as data shares (before: at most 7 per row)
+        let n_ns = if many_ns { k } else { rng.usize(1, k.min(5)) };
+        let mut nss: Vec<Namespace> = (0..n_ns).map(|_| user_ns(rng)).collect();
         if rng.chance(1, 3) {
             nss.push(Namespace::PAY_FOR_BLOB);
         }
@@ -83,9 +87,9 @@ impl C05 {
     fn gen_for_row(&mut self, rng: &mut Rng, w: usize, i: usize, heavy: bool, out: &mut Emitter) {
         let k = w / 2;
         let top = i < k;
-        let row = gen_row(rng, w, top);
+        let row = gen_row(rng, w, top, self.many_ns);
         let flags = flags_for(w, i, w);
-        out.op(format!("commit w={w} i={i} shares={}", hxl(&row)), &format!("commit/w{w}"), true);
+        out.op(format!("commit w={w} i={i} shares={}", hxl(&row)), &format!("commit/w{w}{}", if self.many_ns { "-many-ns" } else { "" }), true);
         let left: Vec<Vec<u8>> = row[..k].to_vec();
         let right: Vec<Vec<u8>> = row[k..].to_vec();
         out.op(format!("roundtrip i={i} side=left oracle={}", oracle(0, &left)), "roundtrip/left", true);
@@ -205,7 +209,9 @@ impl Prop for C05 {
          is also the model's oracle), honest verify, every-position (width<=8) or sampled single-share alterations, parity-flag \
          flips, swaps/reversal, dropped/extra shares, half rows, empty rows, other/out-of-range indices, wire-level \
          from_raw+verify with altered/reordered/mislabelled halves, unknown side values, missing shares, unequal/odd share sizes, \
-         bad namespaces, empty halves, 129-share halves. Non-trivial = every case; distinct = distinct (op, result) lines."
+         bad namespaces, empty halves, 129-share halves. S10 size-threshold stress: rows with about one namespace per data share \
+         (widths 16..256, i.e. 8..128 distinct namespaces in one row; tags commit/wN-many-ns; before at most 7 namespaces per row) and widths \
+         that are not powers of two (6, 10, 14, 18, 30, 34, 62, 66, 126, 130, 254). Non-trivial = every case; distinct = distinct (op, result) lines."
     }
     fn gen_ops(&mut self, rng: &mut Rng, tier: Tier, out: &mut Emitter) {
         // (width, rows with the heavy mutation set, rows with the light set)
@@ -214,12 +220,26 @@ impl Prop for C05 {
         } else {
             vec![(2, 2, 0), (4, 4, 0), (8, 8, 0), (16, 8, 0), (32, 4, 0), (64, 2, 1), (128, 0, 2), (256, 0, 1)]
         };
-        for (w, heavy, light) in plan {
+        // S10 size-threshold stress, appended after the regular plan: (a) rows whose data shares carry about one
+        // namespace EACH (8..128 distinct namespaces in one row), top rows only matter; (b) widths that are not
+        // powers of two (2^k +- 2: the codec and the NMT take any even width): 6, 10, 14, 18, 30, 34, 62, 66, 126, 130, 254
+        let plan_len = plan.len();
+        let mut plan = plan;
+        if tier == Tier::Thorough {
+            plan.extend([(16, 8, 0), (32, 8, 0), (64, 4, 4), (128, 2, 4), (256, 1, 3)]);
+            plan.extend([(6, 6, 0), (10, 4, 0), (14, 4, 0), (18, 4, 0), (30, 2, 2), (34, 2, 2), (62, 1, 2), (66, 1, 2), (126, 0, 2), (130, 0, 2), (254, 0, 2)]);
+        } else {
+            plan.extend([(16, 2, 0), (32, 1, 1), (64, 0, 2), (128, 0, 1), (256, 0, 1)]);
+            plan.extend([(6, 2, 0), (10, 1, 0), (14, 0, 1), (18, 1, 0), (30, 0, 1), (34, 0, 1), (62, 0, 1), (66, 0, 1), (126, 0, 1), (130, 0, 1), (254, 0, 1)]);
+        }
+        for (pi, (w, heavy, light)) in plan.into_iter().enumerate() {
+            self.many_ns = pi >= plan_len && pi < plan_len + 5;
             out.op("reset", "reset", false);
             let mut idx: Vec<usize> = (0..w).collect();
             rng.shuffle(&mut idx);
             // always include a top and a bottom row, first and last
-            let mut chosen: Vec<usize> = vec![0, w - 1, w / 2 - 1, w / 2];
+            // (many-namespace rows: top rows first, only they carry namespaces)
+            let mut chosen: Vec<usize> = if self.many_ns { vec![0, w / 2 - 1, 1, w - 1] } else { vec![0, w - 1, w / 2 - 1, w / 2] };
             chosen.extend(idx);
             chosen.dedup();
             let mut seen = std::collections::BTreeSet::new();
@@ -234,7 +254,7 @@ impl Prop for C05 {
                 self.gen_for_row(rng, w, i, n < heavy, out);
                 n += 1;
             }
-            if w == 256 {
+            if w == 256 && pi < plan_len {
                 // more than 128 shares in a half: the codec's shard limit
                 let big: Vec<Vec<u8>> = (0..129).map(|_| rng.bytes(SHARE_SIZE)).collect();
                 out.op(format!("decode i=200 side=0 half={} oracle={}", hxl(&big), oracle(0, &big)), "decode/129-shares", true);
@@ -345,5 +365,5 @@ impl Prop for C05 {
 }
 
 fn main() {
-    main_for(C05 { w: 0, roots: vec![], committed: BTreeMap::new() });
+    main_for(C05 { many_ns: false, w: 0, roots: vec![], committed: BTreeMap::new() });
 }
